@@ -138,7 +138,9 @@ def build_emit_file(args):
         return []
     victim = res[0]
     alts = [copy.deepcopy(victim)]
-    for tag in rng.sample(["GSpline.EFF", None, "FOCUS.Kpi", "kMatrix.pole.1"], rng.randint(1, 2)):
+    all_tags = [t for tags in goofitio.LS_KINDS.values() for t in tags]
+    for tag in (rng.sample(["GSpline.EFF", None, "FOCUS.Kpi", "kMatrix.pole.1"], rng.randint(1, 2)) if cid % 3
+                else rng.sample(all_tags, rng.randint(3, len(all_tags)))):          # every third file: up to 8 lines
         a = copy.deepcopy(victim)
         n = goofitio.node(a["name"], sf=a["sf"], ls=tag, kids=a["kids"])
         if n["ls"] != victim["ls"] and all(n["ls"] != x["ls"] for x in alts):
@@ -156,13 +158,26 @@ def build_emit_file(args):
             return a
         return {**t, "kids": [subst(k, a) for k in t["kids"]]}
     partial = strip(t0)
-    expected = [subst(t0, a) for a in alts] + [copy.deepcopy(t) for t in trees[1:]]
-    body = [goofitio.render_tree(partial) + "  0 1.0 0.1  0 0.5 0.1"]
-    body += [goofitio.render_tree(t) + "  0 1.0 0.1  0 0.5 0.1" for t in trees[1:]]
+    # the mother line naming the resonance only stands first or anywhere among the other mother lines
+    at = 0 if cid % 2 else rng.randint(0, len(trees) - 1)
+    rest = [copy.deepcopy(t) for t in trees[1:]]
+    expected = rest[:at] + [subst(t0, a) for a in alts] + rest[at:]
+    body = [goofitio.render_tree(t) + "  0 1.0 0.1  0 0.5 0.1" for t in rest]
+    body.insert(at, goofitio.render_tree(partial) + "  0 1.0 0.1  0 0.5 0.1")
     subs = [goofitio.render_tree(a) + "  2 1.0 0.0  2 0.0 0.0" for a in alts]
-    order = body + subs
-    if rng.random() < 0.5:
+    how = rng.random()
+    if how < 0.35:
+        order = body + subs
+    elif how < 0.7:
         order = subs + body                  # the resonance's own lines may stand before or after the mother lines
+    else:
+        # ... or between them: a random merge that keeps the order of the mother lines and that of the resonance's lines
+        order, bi, si = [], 0, 0
+        while bi < len(body) or si < len(subs):
+            if si >= len(subs) or (bi < len(body) and rng.random() < len(body) / (len(body) + len(subs))):
+                order.append(body[bi]); bi += 1
+            else:
+                order.append(subs[si]); si += 1
     text = "EventType " + " ".join(event) + "\n" + "\n".join(order) + "\n" + "\n".join(goofitio.support_lines(expected, rng)) + "\n"
     cls = GooFitChain if lang == "cpp" else GooFitPyChain
     out = []
@@ -253,7 +268,7 @@ def run(tier, seed, replay_path=None):
         for i in range(600 if deep else 70):
             ev = rng.choice(goofitio.EVENTS)
             try:
-                trees = [goofitio.gen_line(rng, ev, allow_unsupported=False) for _ in range(rng.randint(1, 3))]
+                trees = [goofitio.gen_line(rng, ev, allow_unsupported=False) for _ in range(rng.randint(1, 3) if i % 5 else rng.randint(4, 9))]
             except RuntimeError:
                 continue
             fargs.append((i, ev, trees, seed * 43 + i, "cpp" if i % 2 else "py"))
